@@ -353,9 +353,13 @@ class Session:
         return None
 
     def deque_len(self):
+        """length of the waiter deque, 0 when it cannot be observed (the attribute is private: see deque_observable())"""
         fc = self.flow_control()
         dq = getattr(fc, "_WriteFlowControl__drain_waiters", None)
-        return -1 if dq is None else len(dq)
+        try:
+            return len(dq)
+        except TypeError:
+            return 0
 
     def bufsize(self):
         # (a killed CPython datagram transport clears its buffer but not its byte counter: report the buffer)
@@ -492,6 +496,21 @@ def execute(kind, ntasks, actions, epilogue=False):
 
 
 _CFG = {}
+_OBS = []
+
+
+def deque_observable():
+    """is the private waiter deque of WriteFlowControl there to be measured?  (a refactoring may rename or replace it: then
+    its length is left out of the comparison, on both sides, instead of raising a false alarm)"""
+    if not _OBS:
+        from easynetwork.lowlevel.api_async.backend._asyncio._flow_control import WriteFlowControl
+
+        with running() as loop:
+            fc = WriteFlowControl(StubTransport(), loop)
+            dq = getattr(fc, "_WriteFlowControl__drain_waiters", None)
+            _OBS.append(int(hasattr(dq, "__len__") and hasattr(dq, "append")))
+    return _OBS[0]
+
 
 
 def config_of(kind):
@@ -540,7 +559,7 @@ def oracle(inp):
             return f"{KIND_NAMES[kind]}: task {t} failed with a connection error although the connection was never lost"
         if st == 14:
             return f"{KIND_NAMES[kind]}: task {t} raised an unexpected exception"
-    if dq != 0:
+    if dq != 0 and deque_observable():
         return f"{KIND_NAMES[kind]}: waiter leak: {dq} futures left in the drain deque at quiescence"
     return None
 
@@ -562,7 +581,7 @@ def signature(inp, failure):
 def shrink(inp):
     kind, cfg, ntasks, actions = inp[0], inp[1], inp[2], inp[3]
     for i in range(len(actions)):
-        yield [kind, cfg, ntasks, actions[:i] + actions[i + 1:]]
+        yield [kind, cfg, ntasks, actions[:i] + actions[i + 1:]] + list(inp[4:])
 
 
 # ------------------------------------------------------------------------------------------------ params from the source
@@ -1031,7 +1050,7 @@ def _case(kind, ntasks, acts, tag):
     parked = any(1 in s[3] and s[1] > 0 for s in snaps)
     if parked:
         tags.append("parked")
-    return dict(input=[kind, config_of(kind), ntasks, acts], tags=tags, nontrivial=parked)
+    return dict(input=[kind, config_of(kind), ntasks, acts, deque_observable()], tags=tags, nontrivial=parked)
 
 
 def h_pause(kind):
